@@ -344,5 +344,8 @@ PROPS["C19"]["explanation"] += " (DIFFCOUNT) in hdiff's comparison routines ever
 PROPS["C19"]["rules"] = PROPS["C19"]["rules"] + [rules_idioms.rule_dump_record_major]
 PROPS["C19"]["explanation"] += " (RECMAJOR) hdp reads Vdata records in FULL_INTERLACE order, the order in which its dump loop walks the buffer."
 
+PROPS["C15"]["rules"] = PROPS["C15"]["rules"] + [rules_idioms.rule_status_as_boolean]
+PROPS["C15"]["explanation"] += " (STATUSBOOL) a local that only takes the values SUCCEED (0) and FAIL (-1) is never tested as a truth value (which would be true for FAIL): one known finding, the `new_dim` flag with which hdf_read_ndgs decides whether a dimension of a pre-Vgroup SDS gets the coordinate variable that carries its label/unit/format."
+
 NOT_APPLICABLE = {}
 
